@@ -365,6 +365,74 @@ where
     panic!("operator chain did not terminate");
 }
 
+/// One step of a timed two-input drive.
+pub enum Step<L, R> {
+    Left(Vec<El<L>>),
+    Right(Vec<El<R>>),
+    /// the block idles: it is pulled until its `Start` reports a batch timeout (`FlushBatch`)
+    Idle,
+}
+
+/// Like `drive_binary` (one upstream replica per side) but step by step and with timed receives:
+/// batches are fed in the given order, and at every `Idle` step the chain is pulled until it has
+/// consumed what is available and the timed receive of its `Start` expires (virtual clock: time
+/// passes when the single task blocks). An `Idle` with nothing fed since the previous one is
+/// skipped (after a timeout `Start` waits without a deadline). The sides are closed at the end.
+pub fn drive_binary_steps<L, R, Op>(vc: renoir::verif::VerifChain<Op>, steps: Vec<Step<L, R>>, batch: BatchMode) -> Vec<El<Op::Out>>
+where
+    L: renoir::operator::ExchangeData,
+    R: renoir::operator::ExchangeData,
+    Op: Operator,
+{
+    let mut chain = vc.chain;
+    let mut tb = testkit::Testbed::new(vc.block_id, 0, 1);
+    let fl = tb.upstream::<L>(vc.prev_blocks[0], 1);
+    let fr = tb.upstream::<R>(vc.prev_blocks[1], 1);
+    tb.setup(&mut chain, batch);
+    let mut out = vec![];
+    let mut fed = false;
+    for st in steps {
+        match st {
+            Step::Left(b) => {
+                fl[0].send(b);
+                fed = true;
+            }
+            Step::Right(b) => {
+                fr[0].send(b);
+                fed = true;
+            }
+            Step::Idle => {
+                if !fed {
+                    continue;
+                }
+                fed = false;
+                for _ in 0..100_000 {
+                    let e = chain.next();
+                    let stop = matches!(e, StreamElement::FlushBatch | StreamElement::Terminate);
+                    out.push(e);
+                    if stop {
+                        break;
+                    }
+                }
+            }
+        }
+    }
+    if matches!(out.last(), Some(StreamElement::Terminate)) {
+        return out;
+    }
+    drop(fl);
+    drop(fr);
+    for _ in 0..100_000 {
+        let e = chain.next();
+        let t = matches!(e, StreamElement::Terminate);
+        out.push(e);
+        if t {
+            return out;
+        }
+    }
+    panic!("operator chain did not terminate");
+}
+
 /// One element per batch; the end-of-iteration and termination markers in their own batches.
 pub fn singleton_batches<T: Clone>(items: &[El<T>]) -> Vec<Vec<El<T>>> {
     let mut v: Vec<Vec<El<T>>> = items.iter().map(|e| vec![e.clone()]).collect();
